@@ -18,7 +18,7 @@ from __future__ import annotations
 import ast
 
 from ..absint import Interp, Raised, Record, Unsupported
-from ..astx import call_name, enclosing_stmt, kwarg, last
+from ..astx import call_name, enclosing_stmt, facts_at, kwarg, last
 from ..cfg import CFG, exprs_in_node
 from ..index import AnchorError, enclosing_function, qualname_of
 from ..selftest import Twin
@@ -33,6 +33,8 @@ PR_REL = "packages/llama-agents-server/src/llama_agents/server/_runtime/persiste
 
 def run(chk) -> None:
     repo = chk.repo
+    from ._engine import engine_view
+    chk.extra["helpers_inlined"] = engine_view(repo)
     m = repo.module(CL)
     mp = repo.module(PR)
 
@@ -58,6 +60,30 @@ def run(chk) -> None:
     # replay keeps the *last* exit command
     exits_kept = {"CommandCompleteRun", "CommandFailWorkflow", "CommandHalt"} <= handled
     chk.ob("C13.R1", "replay surfaces every kind of exit command", exits_kept, m=m, node=rp, fn=rp, instance="replay-keeps:exit-commands", reason=f"replay inspects only {sorted(handled)}")
+
+    # the exit command replay reports is exactly the last exit command the reducer emitted: nothing else may reset or filter it
+    cr = CFG(rp)
+    ec_assigns = [n for n in cr.nodes if isinstance(n.ast, (ast.Assign, ast.AnnAssign)) and any(isinstance(t, ast.Name) and t.id == "exit_command" for t in ast.walk(n.ast) if isinstance(t, ast.Name) and isinstance(t.ctx, ast.Store))]
+    loops_rp = [l for l in ast.walk(rp) if isinstance(l, (ast.AsyncFor, ast.For)) and any(isinstance(x, ast.Call) and last(call_name(x)) == "_reduce_tick" for x in ast.walk(l))]
+    chk.floor("C13.R3", "assignments to exit_command in replay_ticks_stream", len(ec_assigns), 2)
+    for n in ec_assigns:
+        val = n.ast.value
+        inside = any(n.ast is x for l in loops_rp for x in ast.walk(l))
+        if not inside:
+            ok = val is None or (isinstance(val, ast.Constant) and val.value is None)
+            before = all(n not in cr.reach([h], include_starts=False) for l in loops_rp for h in cr.nodes_of(l))
+            chk.ob("C13.R3", "outside the replay loop exit_command is only initialised (to None, before the loop)", bool(ok and before), m=m, node=n.ast, fn=rp, instance="replay-exit:init-only",
+                   reason="exit_command is (re)assigned after or around the replay loop: a terminated log can be reported as not terminated (or vice versa) and the restart re-runs a finished run")
+        else:
+            f = facts_at(cr, n, expand_locals=False)
+            from_cmd = isinstance(val, ast.Name)
+            only_cls = [a for a, pol in f if pol and a.startswith("isinstance(") and all(k in a for k in ("CommandCompleteRun", "CommandFailWorkflow", "CommandHalt"))]
+            extra = [a for a, pol in f if not (a.startswith("isinstance(") and "Command" in a)]
+            chk.ob("C13.R3", "inside the loop exit_command takes every exit-indicating command and nothing else (last one wins)", from_cmd and bool(only_cls) and not extra, m=m, node=n.ast, fn=rp,
+                   instance="replay-exit:last-wins", reason=f"assignment guarded by {sorted(f)}")
+    rr = [c for c in ast.walk(rp) if isinstance(c, ast.Call) and last(call_name(c)) == "ReplayResult"]
+    ok = bool(rr) and all(kwarg(c, "exit_command") is not None and ast.unparse(kwarg(c, "exit_command")) == "exit_command" and kwarg(c, "state") is not None for c in rr)
+    chk.ob("C13.R3", "replay returns the collected exit command unchanged together with the rebuilt state", ok, m=m, node=rr[0] if rr else rp, fn=rp, instance="replay-exit:returned", reason="ReplayResult does not carry exit_command=exit_command")
 
     # ---------------------------------------------------------------- R2 write-ahead
     _, ot = repo.func(f"{PR}:_PersistenceInternalRunAdapter.on_tick")
@@ -193,5 +219,7 @@ TWINS = [
     Twin("first tick swallowed by the emptiness test", PR_REL, "            async def _with_first() -> AsyncIterator[WorkflowTick]:\n                yield first_tick\n                async for tick in tick_stream:", "            async def _with_first() -> AsyncIterator[WorkflowTick]:\n                async for tick in tick_stream:", "C13.R2"),
     Twin("ticks read newest first", "packages/llama-agents-server/src/llama_agents/server/_store/sqlite/sqlite_workflow_store.py", "FROM ticks WHERE run_id = ? ORDER BY sequence", "FROM ticks WHERE run_id = ? ORDER BY sequence DESC", "C13.R2"),
     Twin("ticks unordered", "packages/llama-agents-server/src/llama_agents/server/_store/sqlite/sqlite_workflow_store.py", "FROM ticks WHERE run_id = ? ORDER BY sequence", "FROM ticks WHERE run_id = ?", "C13.R2"),
+    Twin("exit command dropped while the rebuilt state still runs", CL_REL, "    return ReplayResult(state=state, exit_command=exit_command)", "    if state.is_running:\n        exit_command = None\n    return ReplayResult(state=state, exit_command=exit_command)", "C13.R3"),
+    Twin("first exit command wins", CL_REL, "                # Last wins: a successful retry supersedes earlier failures.\n                exit_command = command", "                # Last wins: a successful retry supersedes earlier failures.\n                exit_command = exit_command or command", "C13.R3"),
     Twin("benign: mapping with elif", PR_REL, "    if isinstance(command, CommandFailWorkflow):\n        return (\"failed\", None, str(command.exception))", "    elif isinstance(command, CommandFailWorkflow):\n        return (\"failed\", None, str(command.exception))", None),
 ]
